@@ -40,15 +40,16 @@ type Job struct {
 }
 
 type JobRes struct {
-	ID        int           `json:"id"`
-	Partial   *evid.Partial `json:"partial"`
-	RootNOpts []int         `json:"rootnopts,omitempty"`
-	RootOut   string        `json:"rootout,omitempty"`
-	Execs     int64         `json:"execs"`
-	Steps     int64         `json:"steps"`
-	Diverged  []string      `json:"diverged,omitempty"`
-	Truncated bool          `json:"truncated,omitempty"`
-	Err       string        `json:"err,omitempty"`
+	ID        int            `json:"id"`
+	Partial   *evid.Partial  `json:"partial"`
+	RootNOpts []int          `json:"rootnopts,omitempty"`
+	RootOut   string         `json:"rootout,omitempty"`
+	Execs     int64          `json:"execs"`
+	Steps     int64          `json:"steps"`
+	Diverged  []string       `json:"diverged,omitempty"`
+	Truncated bool           `json:"truncated,omitempty"`
+	Err       string         `json:"err,omitempty"`
+	Info      map[string]int `json:"info,omitempty"`
 }
 
 // checkImpl is what each property supplies.
